@@ -201,7 +201,8 @@ def hier_program(ids: Ids, rng, shape: List[List[int]], kind: str, is_async: boo
     """One hierarchy (classes K<n>) with one member of the given kind declared/overridden per ``choices``."""
     from vkit.model import Model  # pylint: disable=import-outside-toplevel
 
-    base = ids.new("m")
+    # (now and then a short public name that happens to be part of the names of the special methods)
+    base = rng.choice(("init", "new", "n", "it", "e", "w", "i", "t")) if rng.random() < 0.08 else ids.new("m")
     classes = []  # type: List[Dict[str, Any]]
     names = []  # type: List[str]
     root_style = rng.choice(("dbc", "dbc", "metaclass", "mixin-metaclass"))
@@ -220,7 +221,10 @@ def hier_program(ids: Ids, rng, shape: List[List[int]], kind: str, is_async: boo
                 n_snap = rng.randint(0, 1) if (n_post and with_snaps) else 0
                 m = make_member(ids, rng, kind, base, is_async, n_pre, n_post, n_snap, forms, errs)
                 if kind in ("pset", "pdel"):
-                    members.append(make_member(ids, rng, "pget", base, False, 0, 0, 0))
+                    # (the getter next to the accessor under test may carry a postcondition and a snapshot of its own: the contracts
+                    # of one accessor are none of the business of the others)
+                    with_post = with_snaps and rng.random() < 0.3
+                    members.append(make_member(ids, rng, "pget", base, False, 0, 1 if with_post else 0, rng.randint(0, 1) if with_post else 0, forms, errs))
                 if kind not in ("init", "new") and bases and rng.random() < shared_prob:
                     # the override re-uses a decorator OBJECT of a base's member (one contract listed in two classes)
                     role = rng.choice(("pre", "post"))
